@@ -462,7 +462,11 @@ func TestKinds(t *testing.T) {
 			case "response":
 				m.Response = []*j5sgen.Field{f}
 			case "path":
-				if ty.Kind != "string" && ty.Kind != "key" && ty.Kind != "integer" && ty.Kind != "date" && ty.Kind != "bool" {
+				// every scalar kind and enums can be a path parameter; containers,
+				// objects, oneofs and any cannot
+				switch ty.Kind {
+				case "string", "key", "integer", "date", "bool", "enum", "float", "decimal", "timestamp", "bytes":
+				default:
 					continue
 				}
 				m.HTTPMethod = "GET"
